@@ -26,6 +26,38 @@ pub struct Decls {
     pub fns: BTreeMap<(String, String), FnSig>,
     /// names that denote `Result<T, _>` with one type argument
     pub result_aliases: Vec<String>,
+    /// every other fn / inherent method of the group's source files: a call of one of these is
+    /// INLINED at the call site (the set of generated definitions stays the whitelist)
+    pub helpers: BTreeMap<(String, String), Helper>,
+    /// every integer-looking constant of the group's source files that is not whitelisted: a use
+    /// is replaced by its (compile-time evaluated) value
+    pub const_srcs: BTreeMap<(String, String), ConstSrc>,
+    /// header lines for the non-whitelisted items that were used (constants)
+    pub used_extra: std::cell::RefCell<BTreeMap<String, String>>,
+    const_stack: std::cell::RefCell<Vec<(String, String)>>,
+}
+
+/// a fn or inherent method of a source file of the group that is not whitelisted
+#[derive(Clone)]
+pub struct Helper {
+    pub file: String,
+    pub owner: String,
+    pub name: String,
+    pub sig: syn::Signature,
+    pub block: syn::Block,
+    pub line: usize,
+    pub hash: String,
+    /// why it cannot be inlined (under `#[cfg]`, defined twice, attribute in the body ...)
+    pub unusable: Option<String>,
+}
+
+#[derive(Clone)]
+pub struct ConstSrc {
+    pub file: String,
+    pub ident: syn::Ident,
+    pub ty: syn::Type,
+    pub expr: syn::Expr,
+    pub unusable: Option<String>,
 }
 
 pub fn refuse<T>(file: &str, line: usize, what: impl Into<String>) -> R<T> {
@@ -330,11 +362,53 @@ impl Decls {
                         }
                         inrange(c.value)
                     }
-                    None => refuse(file, line, format!("constant `{}` is not whitelisted (list it before its users)", tok(e))),
+                    None => match self.auto_const(file, line, &o, &n)? {
+                        Some((Ty::Int(b, s), v)) => {
+                            if let Some((wb, ws)) = want {
+                                if b != wb || s != ws {
+                                    return refuse(file, line, format!("constant `{}` has a different type", tok(e)));
+                                }
+                            }
+                            inrange(v)
+                        }
+                        _ => refuse(file, line, format!("constant `{}` is neither whitelisted nor an integer constant of the group's source files", tok(e).replace(' ', ""))),
+                    },
                 }
             }
             _ => refuse(file, line, format!("constant expression `{}`", tok(e))),
         }
+    }
+
+    /// Value of a NON-whitelisted integer constant of the group's source files (evaluated on
+    /// demand; cycles are refused).
+    pub fn auto_const(&self, _file: &str, line: usize, owner: &str, name: &str) -> R<Option<(Ty, i128)>> {
+        let key = (owner.to_string(), name.to_string());
+        let c = match self.const_srcs.get(&key) {
+            Some(c) => c,
+            None => return Ok(None),
+        };
+        let what = if owner.is_empty() { name.to_string() } else { format!("{}::{}", owner, name) };
+        if let Some(why) = &c.unusable {
+            return refuse(&c.file, line_of(&c.ident), format!("constant `{}` cannot be used: {}", what, why));
+        }
+        if self.const_stack.borrow().contains(&key) {
+            return refuse(&c.file, line_of(&c.ident), format!("constant `{}` is defined in terms of itself", what));
+        }
+        let t = self.ty(&c.file, &c.ty, if owner.is_empty() { None } else { Some(owner) })?;
+        let (bits, signed) = match t {
+            Ty::Int(b, s) => (b, s),
+            _ => return refuse(&c.file, line_of(&c.ident), format!("constant `{}` (used at line {}) is not an integer constant", what, line)),
+        };
+        self.const_stack.borrow_mut().push(key);
+        let r = self.const_eval(&c.file, owner, &c.expr, Some((bits, signed)));
+        self.const_stack.borrow_mut().pop();
+        let v = r?;
+        let src = format!("{}: {} = {}", c.ident, tok(&c.ty), tok(&c.expr));
+        self.used_extra.borrow_mut().insert(
+            format!("{}:{} const {}", c.file, line_of(&c.ident), what),
+            format!("{} (value substituted)", sha256_hex(src.as_bytes())),
+        );
+        Ok(Some((Ty::Int(bits, signed), v)))
     }
 
     pub fn add_sig(&mut self, file: &str, owner: &str, sig: &syn::Signature) -> R<()> {
@@ -408,6 +482,10 @@ pub struct FnCx<'a> {
     pub(crate) shift_vars: BTreeSet<usize>,
     pub deps: BTreeSet<String>,
     pub errs: BTreeSet<String>,
+    /// the target being translated and the helpers currently being inlined into it
+    pub(crate) inline_stack: Vec<(String, String)>,
+    /// header lines of the helpers that were inlined
+    pub inlined: BTreeMap<String, String>,
 }
 
 impl<'a> FnCx<'a> {
@@ -424,6 +502,8 @@ impl<'a> FnCx<'a> {
             shift_vars: BTreeSet::new(),
             deps: BTreeSet::new(),
             errs: BTreeSet::new(),
+            inline_stack: vec![],
+            inlined: BTreeMap::new(),
         };
         cx.used.insert("p".into());
         cx.used.insert("ε".into());
